@@ -9,8 +9,8 @@ C03_PINNED_EXCLUSIONS = {
 
 # Bodies that own a proof transcript and call prepare() but are not acceptance decisions.
 C03_PREPARE_OWNER_EXEMPT = {
-    'midnight_aggregator::light_aggregator::LightAggregator::aggregate_proofs::{closure#0}':
-        'prover side of aggregation: inner proofs are re-run only to derive the accumulator (it asserts, documented "Panics"); '
+    'midnight_aggregator::light_aggregator::LightAggregator::aggregate_proofs::{closure}':
+        'prover side of aggregation: inner proofs are re-run only to derive the accumulator (an invalid inner proof is returned as Err); '
         'acceptance is decided by the in-circuit verifier and by LightAggregator::verify',
 }
 
